@@ -136,7 +136,8 @@ DocExp(body, nid, i) ==
 
 \* tables: variant -> number of columns, rows (each row: sequence of "x" fresh / "e" empty cell), gap (injected line between rows)
 TableShape(variant) ==
-   CASE variant = "1x1" -> << <<"x">> >>
+   CASE variant = "none" -> <<>>                      \* (Examples: without any table -- legal, the outline then has no rows there)
+     [] variant = "1x1" -> << <<"x">> >>
      [] variant = "2x2" -> << <<"x", "x">>, <<"x", "e">> >>
      [] variant = "1x3" -> << <<"x">>, <<"e">>, <<"x">> >>
      [] OTHER           -> << <<"x", "x">>, <<"e", "x">>, <<"x", "x">> >>
@@ -188,7 +189,7 @@ AddExamples(g0, layout, how, variant, gap) ==
        g1 == AddLine(f.g, f.ln, FALSE)
        el == Elem("examples", Len(g1.lines), g1.stmt, P1(f.ln), 0, t.tags)
        r  == AddRows(g1, TableShape(variant), 1, gap, <<>>)
-       el2 == [el EXCEPT !.hastab = TRUE, !.rows = r.rows]
+       el2 == [el EXCEPT !.hastab = (r.rows # <<>>), !.rows = r.rows]
    IN [r.g EXCEPT !.exp = Append(@, el2), !.last = Len(r.g.exp) + 1, !.cur = "examples", !.nEx = @ + 1]
 
 Finish(g0, how) == LET c == CloseRule(CloseStmt(g0)) IN [Inject(c, how) EXCEPT !.done = TRUE]
